@@ -99,7 +99,7 @@ def explore(ctx, extended=False, focus=None):
                "boolean declaration, n-bit declaration; integer, boolean and fixed-point receivers; secret and constant right "
                "operands) on operand values on both sides of the relation and at its boundaries; per case: accepted by the run-time "
                "check? / emitted system satisfiable with the operands fixed? / relation true?; distinct = (kind, bitlength, operands)")
-    n = ctx.n(300, 8000) * (3 if extended else 1)
+    n = ctx.n(1200, 32000) * (3 if extended else 1)
     cases = corpus_cases("C03") + [gen_case(ctx.rnd, f"c03_{i}") for i in range(n)]
     on = execute_all(cases)                                   # error checking on: the run-time relation
     off_cases = []
